@@ -95,6 +95,13 @@ class Outcome:
         self.extra = {}
         self.queries = 0
         self.solver_s = 0.0
+        # replay files of earlier runs of this property are stale by definition
+        import glob
+        for old in glob.glob(os.path.join(REPLAYS, prop + "-*.json")):
+            try:
+                os.remove(old)
+            except OSError:
+                pass
 
     def violation(self, what, replay_obj, key):
         """key: stable identity of the failing case (matched against known findings)."""
